@@ -3,6 +3,7 @@ mod cmp;
 mod gen;
 mod model;
 mod props;
+mod readers;
 mod rt;
 mod selftest;
 mod spec;
